@@ -89,7 +89,9 @@ func (v *SliceSchema) validate(ctx *p.SchemaCtx) {
 		if v.defaultVal != nil {
 			def := reflect.ValueOf(v.defaultVal)
 			cp := reflect.MakeSlice(refVal.Type(), def.Len(), def.Len())
-			reflect.Copy(cp, def)
+			for i := 0; i < def.Len(); i++ {
+				cp.Index(i).Set(p.DeepCopy(def.Index(i)))
+			}
 			refVal.Set(cp)
 		} else if v.required == nil {
 			return
